@@ -43,8 +43,35 @@ Definition tree_build (keys : list Z) : tree :=
   let left_of := if source_tree_desc then Z.gtb else Z.ltb in
   fold_left (fun t k => bst_insert left_of k t) keys TLeaf.
 
+(* Table / Tree after a history of set (k), rem (r) and resize (z) operations; the Table goes through the
+   C02 model operation by operation (displacement, backward shift, rehash on growth and shrink) *)
+Inductive kop := KSet (k : Z) | KRem (k : Z) | KResize (n : nat).
+Definition table_hist (ops : list kop) : list (option val) * nat :=
+  let t0 := TableModel.t_empty Z Z table_primes table_load_num table_load_den in
+  let step (st : TableModel.table Z Z * nat) (o : kop) :=
+    let top := match o with
+               | KSet k => TableModel.TSet Z Z k (k * 10)
+               | KRem k => TableModel.TRem Z Z k
+               | KResize n => TableModel.TResize Z Z n
+               end in
+    let '(t', out) := TableModel.t_step Z Z Z.eqb int_hash table_swap table_primes table_load_num table_load_den (fst st) top in
+    (t', match out with TableModel.ORaise _ _ => S (snd st) | _ => snd st end) in
+  let '(t, raised) := fold_left step ops (t0, O) in
+  (map (fun s => match s with None => None | Some (_, (k, _)) => Some (VInt k) end) (TableModel.slots Z Z t), raised).
+Definition tree_hist (ops : list kop) : tree * nat :=
+  let step (st : list Z * nat) (o : kop) :=
+    let ks := fst st in
+    match o with
+    | KSet k => (if existsb (Z.eqb k) ks then ks else ks ++ [k], snd st)
+    | KRem k => if existsb (Z.eqb k) ks then (filter (fun x => negb (Z.eqb k x)) ks, snd st) else (ks, S (snd st))
+    | KResize n => match n with O => ([], snd st) | _ => (ks, S (snd st)) end
+    end in
+  let '(ks, raised) := fold_left step ops ([], O) in
+  (tree_build ks, raised).
+Definition m_hist := hist_run.
+
 Definition z_ltb := Z.ltb.
 
 Extraction Language OCaml.
 Extraction "../ocaml/gen/Iter.ml" m_len m_get m_walk m_range m_slice m_reverse m_enumerate m_pred m_fun
-  table_slots tree_build z_ltb zlen.
+  table_slots tree_build table_hist tree_hist m_hist z_ltb zlen.
